@@ -177,6 +177,10 @@ def run(F, R, tier):
 
     # ------------------------------------------------------------------ R6 CoreDocument::verify_jws
     r6 = R.rule("C03-R6", "T2+T3+T6+T4", "verify_jws: nonce equality dominates; method query = options.method_id or protected kid; resolve_method(query, options.method_scope) on self; verify(verifier, that key) result returned; DIDUrlQuery::matches table")
+    verify_jws_rules(F, r6)
+
+
+def verify_jws_rules(F, r6):
     vfn = CORE + "::verify_jws"
     vh = F.hir(vfn)
     if r6.anchor(vh, vfn):
